@@ -226,6 +226,115 @@ var jrepls = []jrepl{
 	{"object-type-0", map[string]any{"type": float64(0)}},
 }
 
+func hexOf(n int, seed byte) string {
+	const digits = "0123456789abcdef"
+	b := make([]byte, 0, 2+2*n)
+	b = append(b, '0', 'x')
+	for i := 0; i < n; i++ {
+		v := seed + byte(i)*7
+		b = append(b, digits[v>>4], digits[v&15])
+	}
+	return string(b)
+}
+
+func isDigits(s string) bool {
+	if s == "" {
+		return false
+	}
+	for _, r := range s {
+		if r < '0' || r > '9' {
+			return false
+		}
+	}
+	return true
+}
+
+// stringRepls are the value-dependent replacements of a string node: well-formed strings of
+// a different LENGTH or spelling (the static list only has other kinds and malformed text).
+//
+//	hexlen-*  valid 0x-prefixed hex decoding to 0, 1, N-1, N+1, 2N and 1000 bytes (N = decoded
+//	          length of the original, or its text length when it is not hex) and around the
+//	          common array sizes
+//	numstr-*  numeric spellings: too many digits, leading zeros, signs, exponent, blanks
+//	hexform-* prefix / digit-count / case ambiguities between base 10 and hex
+//	long-*    64 KiB strings (plain, decimal digits, valid hex): allocation may only follow the input
+func stringRepls(orig string, long bool) []jrepl {
+	var out []jrepl
+	n := len(orig)
+	isHex := false
+	if len(orig) >= 2 && orig[:2] == "0x" && len(orig)%2 == 0 {
+		isHex = true
+		for _, r := range orig[2:] {
+			if !(r >= '0' && r <= '9' || r >= 'a' && r <= 'f' || r >= 'A' && r <= 'F') {
+				isHex = false
+			}
+		}
+		if isHex {
+			n = (len(orig) - 2) / 2
+		}
+	}
+	seen := map[int]bool{}
+	for _, l := range []struct {
+		name string
+		n    int
+	}{{"0", 0}, {"1", 1}, {"N-1", n - 1}, {"N+1", n + 1}, {"2N", 2 * n}, {"N+N/2", n + n/2}, {"3", 3}, {"5", 5}, {"9", 9}, {"31", 31}, {"33", 33}, {"1000", 1000}} {
+		if l.n < 0 || seen[l.n] || (isHex && l.n == n) {
+			continue
+		}
+		seen[l.n] = true
+		out = append(out, jrepl{"hexlen-" + l.name, hexOf(l.n, byte(len(orig)))})
+	}
+	digits := orig
+	if !isDigits(digits) {
+		digits = "7"
+	}
+	out = append(out,
+		jrepl{"numstr-21digits", "184467440737095516160"},
+		jrepl{"numstr-80digits", repeat("1234567890", 8)},
+		jrepl{"numstr-leadzero", "000" + digits},
+		jrepl{"numstr-plus", "+" + digits},
+		jrepl{"numstr-minus", "-" + digits},
+		jrepl{"numstr-minuszero", "-0"},
+		jrepl{"numstr-exp", "1e3"},
+		jrepl{"numstr-Exp", "1E+3"},
+		jrepl{"numstr-blank", " " + digits},
+		jrepl{"numstr-trailblank", digits + " "},
+		jrepl{"numstr-underscore", "1_000"},
+		jrepl{"numstr-maxu64", "18446744073709551615"},
+		jrepl{"numstr-maxi64+1", "9223372036854775808"},
+		jrepl{"numstr-mini64-1", "-9223372036854775809"},
+		jrepl{"numstr-nan", "NaN"},
+		jrepl{"numstr-inf", "-Inf"},
+		jrepl{"numstr-hexfloat", "0x1p-2"},
+		jrepl{"hexform-noprefix", "0102"},
+		jrepl{"hexform-noprefix-af", "abcdef"},
+		jrepl{"hexform-odd", "0x012"},
+		jrepl{"hexform-odd-noprefix", "012"},
+		jrepl{"hexform-upperX", "0X0102"},
+		jrepl{"hexform-upper", "0xABCDEF"},
+		jrepl{"hexform-leadzero-quantity", "0x01"},
+		jrepl{"hexform-257bit", "0x1" + repeat("0", 64)},
+		jrepl{"hexform-256bit", "0x" + repeat("f", 64)},
+		jrepl{"hexform-digits-as-hex", "0x" + digits},
+	)
+	if long {
+		out = append(out,
+			jrepl{"long-plain", repeat("a", 64<<10)},
+			jrepl{"long-digits", repeat("9", 64<<10)},
+			jrepl{"long-hex", hexOf(32<<10, 1)},
+		)
+	}
+	return out
+}
+
+func repeat(s string, n int) string {
+	b := make([]byte, 0, len(s)*n)
+	for i := 0; i < n; i++ {
+		b = append(b, s...)
+	}
+	return string(b)
+}
+
 func jmarshal(v any) []byte {
 	b, err := json.Marshal(v)
 	if err != nil {
@@ -236,7 +345,7 @@ func jmarshal(v any) []byte {
 
 // jsonMutants enumerates: each node replaced by every other JSON kind (and hostile
 // same-kind values), each object member removed, an extra member added to each object.
-func jsonMutants(doc any, full bool, emit func(in []byte, org string)) {
+func jsonMutants(doc any, full bool, long bool, emit func(in []byte, org string)) {
 	emit(jmarshal(doc), "valid")
 	type nodeRef struct {
 		p jpath
@@ -258,6 +367,11 @@ func jsonMutants(doc any, full bool, emit func(in []byte, org string)) {
 				continue
 			}
 			emit(jmarshal(jset(doc, nr.p, r.v)), fmt.Sprintf("node-%s->%s@%v", k, r.name, nr.p))
+		}
+		if str, ok := nr.v.(string); ok {
+			for _, r := range stringRepls(str, long) {
+				emit(jmarshal(jset(doc, nr.p, r.v)), fmt.Sprintf("node-string->%s@%v", r.name, nr.p))
+			}
 		}
 	}
 	for _, nr := range nodes {
